@@ -5,7 +5,7 @@
 
 Exit 0: property held on everything explored (KNOWN-FINDING lines allowed).
 Exit 1: at least one `VIOLATION property=<id> replay=<path>` line.
-Exit 2: INCONCLUSIVE - the deciding monitors observed nothing (harness bug).
+Exit 2: INCONCLUSIVE - the deciding monitors observed nothing, or >= 2 % of the cases (and >= 10) ended in a harness error.
 """
 
 from __future__ import annotations
@@ -362,6 +362,11 @@ def _check(pid, mod, args, workdir, t0) -> int:
         missing = [m for m in must if obs.get(m, 0) <= 0]
         if evaluations == 0 or held == 0 and not known_hits or missing or harness_errors > evaluations // 2:
             print(f"INCONCLUSIVE property={pid} deciding monitors observed nothing (missing={missing})")
+            return 2
+        if harness_errors >= max(10, evaluations // 50):
+            # the harness itself broke on a sizeable share of the cases (0 on the tree the check was built on):
+            # whatever changed in the library, those cases were not judged - do not report 'held'
+            print(f"INCONCLUSIVE property={pid} {harness_errors} of {evaluations} cases ended in a harness error and were not judged")
             return 2
     return exit_code
 
